@@ -458,10 +458,8 @@ theorem parseSample_quoted (legacy : Bool) (pyInt : Str → Option Int) (pyFloat
 
 /-- the samples the line-level round trip is stated for -/
 structure SampleOK (legacy : Bool) (s : Sample) : Prop where
-  /-- label names accepted by `_validate_labelname`, no F2 label name, unique keys -/
+  /-- label names accepted by `_validate_labelname`, unique keys -/
   labels : LabelsOK legacy s.labels
-  /-- F2 exclusion for the sample name: a name the legacy pattern accepts does not end in a line feed -/
-  nameNoF2 : isValidLegacyMetricName s.name = true → s.name.getLast? ≠ some '\n'
   /-- the rendered value is a number token (digits, `e . + -`, `Inf`, `NaN`) -/
   tok : NumTok (Utils.floatToGoString s.value)
 
@@ -537,7 +535,7 @@ theorem sample_line_roundtrip (legacy : Bool) (pyInt : Str → Option Int) (pyFl
   simp only [Bool.false_eq_true, ↓reduceIte, List.nil_append, List.singleton_append] at hpvt0 hpvt1
   rw [sampleLine_shape]
   by_cases hv : isValidLegacyMetricName s.name = true
-  · obtain ⟨hne, hc⟩ := legacyName_chars hv (h.nameNoF2 hv)
+  · obtain ⟨hne, hc⟩ := legacyName_chars hv (legacyMetric_no_newline hv)
     obtain ⟨a, t, ea⟩ : ∃ a t, s.name = a :: t := by
       cases hn : s.name with
       | nil => exact absurd hn hne
@@ -547,7 +545,7 @@ theorem sample_line_roundtrip (legacy : Bool) (pyInt : Str → Option Int) (pyFl
     cases hs : sortByKey s.labels with
     | nil =>
       simp only []
-      rw [strip_line (a := a) (by rw [ea]; rfl) has h.tok, parseSample_bare legacy pyInt pyFloat hv (h.nameNoF2 hv) h.tok, hpvt0]
+      rw [strip_line (a := a) (by rw [ea]; rfl) has h.tok, parseSample_bare legacy pyInt pyFloat hv (legacyMetric_no_newline hv) h.tok, hpvt0]
       rfl
     | cons kv r =>
       simp only []
@@ -555,7 +553,7 @@ theorem sample_line_roundtrip (legacy : Bool) (pyInt : Str → Option Int) (pyFl
       rw [strip_line (a := a) (by rw [ea]; rfl) has h.tok]
       rw [show s.name ++ '{' :: (labelItem kv ++ tailStr r ++ ['}']) ++ ' ' :: valTs (Utils.floatToGoString s.value) (millisOf s) =
         s.name ++ '{' :: (labelItem kv ++ tailStr r ++ '}' :: ' ' :: valTs (Utils.floatToGoString s.value) (millisOf s)) by simp]
-      rw [parseSample_labels legacy pyInt pyFloat hv (h.nameNoF2 hv) h.tok _ kv r hok hnd, hpvt1]
+      rw [parseSample_labels legacy pyInt pyFloat hv (legacyMetric_no_newline hv) h.tok _ kv r hok hnd, hpvt1]
       rfl
   · simp only [hv, Bool.false_eq_true, ↓reduceIte]
     rw [strip_line (a := '{') rfl (by decide) h.tok]
